@@ -292,8 +292,8 @@ class MExpander(Expander):
                 return M.atom(name, 2, True)
         if short in ("diagonal", "diag"):
             raise Unsupported(f"`{ast.unparse(node)}` (diagonal extraction) in matrix context")
-        if short == "zeros":
-            return M({}, 2)
+        if short in ("zeros", "zeros_like", "empty", "empty_like"):
+            return M({}, 2)      # (the dtype such a buffer inherits is the dtype-hazard lint's question, not the algebra's)
         # self.method(...) inlining
         if isinstance(f, ast.Attribute) and isinstance(f.value, ast.Name) and f.value.id == self.selfname and self.ci is not None:
             c, fn = self.prog.find_method(self.ci, f.attr)
